@@ -10,7 +10,7 @@ namespace {
 
 static Op mk(int code, int64_t a = 0, const Bytes &b = Bytes(), int64_t c = 0) { Op o; o.code = code; o.a = a; o.b = b; o.c = c; return o; }
 
-static void text_tree(Rng &r, Node &n, int depth, int &budget) {
+static void text_tree(Rng &r, Node &n, int depth, int &budget, bool &big) {
     // documents that stress the hand-kept `available` counter: long bytes values, huge doubles, NULs, nesting, empties
     int kids = (int)r.below(5);
     if (r.chance(1, 5)) kids = 0;
@@ -18,10 +18,19 @@ static void text_tree(Rng &r, Node &n, int depth, int &budget) {
     for (int i = 0; i < kids && budget > 0; i++) {
         Node c; budget--;
         unsigned t = (unsigned)r.below(100);
-        if (t < 22 && depth < 9) { c.t = r.chance(1, 2) ? V_OBJ : V_ARR; text_tree(r, c, depth + 1, budget); }
-        else if (t < 40) { c.t = V_BYTES; size_t len = r.chance(1, 3) ? r.below(4) : r.below(300); c.s.resize(len); for (auto &x : c.s) x = (uint8_t)r.below(256); }
+        if (t < 22 && depth < 9) { c.t = r.chance(1, 2) ? V_OBJ : V_ARR; text_tree(r, c, depth + 1, budget, big); }
+        else if (t < 40) {
+            c.t = V_BYTES; size_t len = r.chance(1, 3) ? r.below(4) : r.below(300);
+            if (big && r.chance(1, 2)) { static const size_t L[] = {16380, 16383, 32766, 32769, 65534, 65536, 65537}; len = L[r.below(7)]; big = false; }
+            c.s.resize(len); for (auto &x : c.s) x = (uint8_t)r.below(256);
+        }
         else if (t < 58) { c.t = V_DBL; c.d = r.chance(1, 3) ? 0x7fe1ccf385ebc8a0ULL : interesting_double(r); }
-        else if (t < 72) { c.t = V_STR; size_t len = r.below(12); c.s.resize(len); for (auto &x : c.s) x = r.chance(1, 8) ? 0 : (uint8_t)('a' + r.below(26)); }
+        else if (t < 72) {
+            c.t = V_STR; size_t len = r.below(12);
+            bool huge = big && r.chance(1, 2);
+            if (huge) { static const size_t L[] = {32764, 32766, 32768, 65534, 65536, 65540}; len = L[r.below(6)]; big = false; }
+            c.s.resize(len); for (auto &x : c.s) x = (!huge && r.chance(1, 8)) ? 0 : (uint8_t)('a' + r.below(26));
+        }
         else if (t < 86) { c.t = V_INT; c.i = interesting_int(r); }
         else { c.t = V_BOOL; c.b = r.chance(1, 2); }
         if (n.t == V_OBJ) {
@@ -42,7 +51,9 @@ Plan tostring_generate(uint64_t base, const std::string &prop, uint64_t index, i
     p.root = rd.chance(1, 4) ? 1 : 0;
     Node root; root.t = p.root ? V_ARR : V_OBJ;
     int budget = 1 + (int)rd.below(tier ? 40 : 16);
-    text_tree(rd, root, 1, budget);
+    bool big = rd.chance(1, tier ? 40 : 150);       // one very long token (string/bytes around 2^14, 2^15, 2^16): few, they are expensive
+    if (big) p.faults.push_back("shape:huge_token");
+    text_tree(rd, root, 1, budget, big);
     encode(root, p.doc);
     p.note = tree_text(root);
     p.max_depth = 10 + (int)rd.below(3);
